@@ -4,7 +4,7 @@ from __future__ import annotations
 
 import numpy as np
 
-from .. import gen, monitors
+from .. import derive, gen, monitors
 
 PID = "C09"
 ANCHORS = ["scores.py:Scores.cm", "scores.py:Scores.hard_pos_ratio", "scores.py:Scores.hard_neg_ratio", "scores.py:Scores.easy_pos_ratio",
@@ -29,9 +29,46 @@ def install(ctx):
     monitors.install_ctor_snapshot(ctx.sess)
 
 
+def _execute_narrow(ctx, case):
+    """Quantised scores kept in their narrow integer type (saturated at the ends of the type) against integer thresholds of a wider type: the
+    thresholds between the scored range and the materialised easy samples lie outside the narrow type's range, where a conversion of the
+    thresholds to the scores' type would misplace the saturated samples."""
+    from score_analysis import Scores
+
+    sess = ctx.sess
+    pos, neg, ep, en, sc, ec = case["pos"], case["neg"], case["ep"], case["en"], case["sc"], case["ec"]
+    s = Scores(pos, neg, nb_easy_pos=ep, nb_easy_neg=en, score_class=sc, equal_class=ec)
+    ii = np.iinfo(pos.dtype)
+    hi_ext = int(ii.max) + 1000 + np.arange(max(ep, en, 1))
+    lo_ext = int(ii.min) - 1000 - np.arange(max(ep, en, 1))
+    pe, ne = (hi_ext[:ep], lo_ext[:en]) if sc == "pos" else (lo_ext[:ep], hi_ext[:en])
+    mt = Scores(np.concatenate([pos.astype(np.int64), pe]), np.concatenate([neg.astype(np.int64), ne]), score_class=sc, equal_class=ec)
+    rs = np.random.default_rng(case["_seed"])
+    thr = np.unique(np.concatenate([rs.integers(int(ii.min) - 900, int(ii.max) + 901, 12), [int(ii.min) - 1, int(ii.min), int(ii.max), int(ii.max) + 1, int(ii.min) - 500, int(ii.max) + 500]]))
+    sig = (sc, ec, "narrowint", ep > 0, en > 0, str(pos.dtype))
+    sess.observe("R-easy")
+    C = lambda ok, what, key, **kw: sess.check("R-easy", bool(ok), what, dict({"pos": pos, "neg": neg, "easy": [ep, en], "cfg": [sc, ec], "dtype": str(pos.dtype)}, **kw), sig=sig, key=key)  # noqa: E731
+    for form, x_ in (("int64 array", thr.astype(np.int64)), ("float array", thr.astype(float)), ("python int", int(thr[len(thr) // 3])), ("python int (high)", int(thr[-2])), ("int32 array", thr.astype(np.int32))):
+        C(np.array_equal(s.cm(x_).matrix, mt.cm(x_).matrix), "confusion matrices differ between declared and materialised easy samples (narrow integer scores, wider thresholds)",
+          "easy-cm-narrow", thresholds=np.asarray(x_), form=form, declared=s.cm(x_).matrix, materialised=mt.cm(x_).matrix)
+    sess.sig_counts[("case",) + sig] += 1
+    return bool(ep + en > 0)
+
+
 def cases(ctx):
     rng = ctx.rng
     for i in range(ctx.n(1500, 5000)):
+        if i % 15 == 7:
+            dt_ = [np.uint8, np.int8, np.uint16, np.int16][int(rng.integers(0, 4))]
+            ii_ = np.iinfo(dt_)
+            def q_(n_):
+                v = rng.integers(ii_.min, ii_.max + 1, n_)
+                v[rng.random(n_) < 0.3] = int(rng.choice([ii_.min, ii_.max]))  # saturated at an end of the type
+                return v.astype(dt_)
+            sc_, ec_ = gen.cfg(rng)
+            yield {"narrow": True, "pos": q_(int(rng.integers(1, 20))), "neg": q_(int(rng.integers(1, 20))), "ep": int(rng.choice([0, 1, 3, 20])), "en": int(rng.choice([0, 2, 5, 33])),
+                   "sc": sc_, "ec": ec_, "kind": "narrowint", "_seed": int(rng.integers(1 << 31))}
+            continue
         pos, neg, kind = gen.scores(rng, min_pos=1, min_neg=1, maxn=20, kinds=["gauss", "lattice", "intdtype", "pool5", "uniform01", "separated", "inverted", "touching", "scaled", "perm"])
         ep = int(rng.choice([0, 1, 2, 3, 7, 20, 60]))
         en = int(rng.choice([0, 1, 2, 5, 9, 33, 60]))
@@ -48,12 +85,14 @@ def cases(ctx):
         edge = np.array(edge)[rng.permutation(len(edge))[:6]]
         yield {"pos": pos, "neg": neg, "ep": ep, "en": en, "sc": sc, "ec": ec, "kind": kind, "d": float(rng.uniform(0.5, 3)),
                "rs": np.concatenate([rng.uniform(0, 1, 6), rng.integers(0, 51, 3) / 50.0, edge]), "lu": np.sort(rng.uniform(0, 1, 2)), "_seed": int(rng.integers(1 << 31)),
-               "via": str(rng.choice(["ctor", "ctor", "swap_of_warm_parent", "swap_of_fresh_parent", "queried_before"]))}
+               "via": str(rng.choice(["ctor", "ctor", "swap_of_warm_parent", "swap_of_fresh_parent", "queried_before", "replaced", "replaced", "relabelled", "from_labels", "swap2"]))}
 
 
 def execute(ctx, case):
     from score_analysis import Scores
 
+    if case.get("narrow"):
+        return _execute_narrow(ctx, case)
     sess = ctx.sess
     pos, neg = np.asarray(case["pos"], dtype=float), np.asarray(case["neg"], dtype=float)
     ep, en, sc, ec, d = case["ep"], case["en"], case["sc"], case["ec"], case["d"]
@@ -75,6 +114,11 @@ def execute(ctx, case):
             np.random.seed(case["_seed"])
             parent.bootstrap_sample()
         s = parent.swap()
+    elif via in ("replaced", "relabelled", "from_labels", "swap2"):
+        # other histories (vmon/derive.py): the object held other scores - other class sizes - and answered queries before its score arrays were
+        # replaced through the public attributes; its label fields were re-assigned; it came from from_labels / a double swap
+        with monitors.oracle_scope_ctx():
+            s = derive.build(pos, neg, ep, en, sc, ec, via, case["_seed"])
     else:
         s = Scores(pos, neg, nb_easy_pos=ep, nb_easy_neg=en, score_class=sc, equal_class=ec)
         if via == "queried_before":  # queries in a different order first
